@@ -1,5 +1,7 @@
 import Rare.Proofs.C04
 import Rare.Proofs.C04Buf
+import Rare.Proofs.C04Tie
+import Rare.Gen.C04
 /-!
 # C04 — line splitting is exact; returned line buffers are never overwritten
 
@@ -186,5 +188,174 @@ example : (Imm.run 2 [97, 13, 10, 10, 98, 98, 98, 10, 99] [⟨1, none⟩, ⟨0, 
     = [[97], [], [98, 98, 98], [99]] := by decide
 
 example : (Imm.run 2 [97, 10, 98, 10] [⟨1, none⟩, ⟨2, some .fail⟩]).2.2.errs = 1 := by decide
+
+/-! ## Translator tie: the hand model against the source of pkg/readahead as it is now
+
+`Rare.Gen.C04` is regenerated from /repo on every run (harness/extract/c04.go).  The theorems below
+break (stop compiling) when the control structure, a guard, an index expression, a slice bound or an
+allocation size of the scanners changes in /repo. -/
+
+/-- bounds of a generated slice expression -/
+def slB (s : Rare.Gen.C04.Sl) : SlB := ⟨s.cr, s.lo, s.hi⟩
+
+/-- the fragments of `ImmediateReadAhead.Scan` as translated from /repo, in source order -/
+def ImmFrags.gen : ImmFrags where
+  c0 := Rare.Gen.C04.imm_cond_0
+  sl0 := fun x0 x1 => slB (Rare.Gen.C04.imm_slice_0 x0 x1)
+  c1 := Rare.Gen.C04.imm_cond_1
+  sl1 := fun x0 x1 => slB (Rare.Gen.C04.imm_slice_1 x0 x1)
+  set0 := Rare.Gen.C04.imm_set_0
+  c2 := Rare.Gen.C04.imm_cond_2
+  sl2 := fun x0 x1 => slB (Rare.Gen.C04.imm_slice_2 x0 x1)
+  set1 := Rare.Gen.C04.imm_set_1
+  c3 := Rare.Gen.C04.imm_cond_3
+  c4 := Rare.Gen.C04.imm_cond_4
+  make0 := Rare.Gen.C04.imm_make_0
+  sl3 := fun x0 x1 => slB (Rare.Gen.C04.imm_slice_3 x0 x1)
+  set2 := Rare.Gen.C04.imm_set_2
+  set3 := Rare.Gen.C04.imm_set_3
+  sl4 := fun x0 x1 => slB (Rare.Gen.C04.imm_slice_4 x0 x1)
+  set4 := Rare.Gen.C04.imm_set_4
+  c5 := Rare.Gen.C04.imm_cond_5
+  c6 := Rare.Gen.C04.imm_cond_6
+  sl5 := fun x0 x1 => slB (Rare.Gen.C04.imm_slice_5 x0 x1)
+  c7 := Rare.Gen.C04.imm_cond_7
+  set5 := Rare.Gen.C04.imm_set_5
+  sl6 := fun x0 x1 => slB (Rare.Gen.C04.imm_slice_6 x0 x1)
+  set6 := Rare.Gen.C04.imm_set_6
+
+/-- the fragments of `BufferedReadAhead.Scan` as translated from /repo, in source order -/
+def BufFrags.gen : BufFrags where
+  sl0 := fun x0 x1 => slB (Rare.Gen.C04.buf_slice_0 x0 x1)
+  c0 := Rare.Gen.C04.buf_cond_0
+  set0 := Rare.Gen.C04.buf_set_0
+  set1 := Rare.Gen.C04.buf_set_1
+  sl1 := fun x0 x1 => slB (Rare.Gen.C04.buf_slice_1 x0 x1)
+  c1 := Rare.Gen.C04.buf_cond_1
+  sl2 := fun x0 x1 => slB (Rare.Gen.C04.buf_slice_2 x0 x1)
+  set2 := Rare.Gen.C04.buf_set_2
+  c2 := Rare.Gen.C04.buf_cond_2
+  make0 := Rare.Gen.C04.buf_make_0
+  sl3 := fun x0 x1 => slB (Rare.Gen.C04.buf_slice_3 x0 x1)
+  set3 := Rare.Gen.C04.buf_set_3
+  c3 := Rare.Gen.C04.buf_cond_3
+  sl4 := fun x0 x1 => slB (Rare.Gen.C04.buf_slice_4 x0 x1)
+  set4 := Rare.Gen.C04.buf_set_4
+  c4 := Rare.Gen.C04.buf_cond_4
+  c5 := Rare.Gen.C04.buf_cond_5
+  sl5 := fun x0 => slB (Rare.Gen.C04.buf_slice_5 x0)
+  set5 := Rare.Gen.C04.buf_set_5
+
+/-- The control skeletons of `Scan` (both scanners), `dropCR`, `maxi`, the constructors, `ReadLine` and
+    `Bytes` in /repo are the ones the model was written against: statement order, guards (with their init
+    statements), the `RESTART` label / `goto`, the loops, `break` and every `return`. -/
+theorem scanner_skeletons_match_source :
+    Rare.Gen.C04.imm_skeleton = [
+      "label:RESTART", "if:s.offset<s.end{",
+      "if:eol:=bytes.IndexByte(s.buf[s.offset:s.end],s.delim);eol>=0{",
+      "stmt:s.token=dropCR(s.buf[s.offset:s.offset+eol])", "stmt:s.offset+=eol+1", "return:true", "}",
+      "if:s.eof{", "stmt:s.token=s.buf[s.offset:s.end]", "stmt:s.offset=s.end", "return:true", "}",
+      "}elseif:s.eof{", "return:false", "}", "for:;;{", "if:s.end>=len(s.buf){", "stmt:old:=s.buf",
+      "stmt:s.buf=make([]byte,s.end-s.offset+s.bufSize)", "stmt:copy(s.buf,old[s.offset:s.end])",
+      "stmt:s.end-=s.offset", "stmt:s.offset=0", "}", "stmt:n,err:=s.r.Read(s.buf[s.end:])", "stmt:s.end+=n",
+      "if:err!=nil{", "stmt:s.eof=true", "if:err!=io.EOF&&s.onError!=nil{", "stmt:s.onError(err)", "}",
+      "goto:RESTART", "}", "if:eol:=bytes.IndexByte(s.buf[s.end-n:s.end],s.delim);eol>=0{",
+      "stmt:end:=s.end-n+eol", "stmt:s.token=dropCR(s.buf[s.offset:end])", "stmt:s.offset=end+1",
+      "return:true", "}", "}"] ∧
+    Rare.Gen.C04.buf_skeleton = [
+      "for:;;{", "stmt:relIndex:=bytes.IndexByte(s.buf[s.offset:],s.delim)", "if:relIndex>=0{",
+      "stmt:start:=s.offset", "stmt:s.offset+=relIndex+1",
+      "stmt:s.token=dropCR(s.buf[start:start+relIndex])", "return:true", "}",
+      "if:s.eof&&s.offset<len(s.buf){", "stmt:ret:=s.buf[s.offset:]", "stmt:s.offset=len(s.buf)",
+      "stmt:s.token=ret", "return:true", "}elseif:!s.eof{", "stmt:oldbuf:=s.buf",
+      "stmt:s.buf=make([]byte,maxi(s.maxBufLen,len(oldbuf)-s.offset+s.maxBufLen/2))",
+      "stmt:copy(s.buf,oldbuf[s.offset:])", "stmt:readOffset:=len(oldbuf)-s.offset",
+      "for:;readOffset<len(s.buf);{", "stmt:n,err:=s.r.Read(s.buf[readOffset:])", "stmt:readOffset+=n",
+      "if:err!=nil{", "if:err!=io.EOF&&s.onError!=nil{", "stmt:s.onError(err)", "}", "stmt:s.eof=true",
+      "break", "}", "}", "stmt:s.buf=s.buf[:readOffset]", "stmt:s.offset=0", "}else{", "stmt:s.token=nil",
+      "return:false", "}", "}"] ∧
+    Rare.Gen.C04.dropCR_skeleton = ["if:len(data)>0&&data[len(data)-1]=='\\r'{", "return:data[0:len(data)-1]", "}", "return:data"] ∧
+    Rare.Gen.C04.maxiFn_skeleton = ["if:a>b{", "return:a", "}", "return:b"] ∧
+    Rare.Gen.C04.newImm_skeleton = [
+      "return:&ImmediateReadAhead{r:reader,bufSize:bufSize,buf:make([]byte,bufSize),delim:'\\n',}"] ∧
+    Rare.Gen.C04.newBuf_skeleton = [
+      "if:maxBufLen<=1{", "stmt:panic(\"Buflengthmustbe>1\")", "}",
+      "return:&BufferedReadAhead{r:reader,maxBufLen:maxBufLen,delim:'\\n',}"] ∧
+    Rare.Gen.C04.immReadLine_skeleton = ["if:s.Scan(){", "return:s.token", "}", "return:nil"] ∧
+    Rare.Gen.C04.bufReadLine_skeleton = ["if:!s.Scan(){", "return:nil", "}", "return:s.token"] ∧
+    Rare.Gen.C04.immBytes_skeleton = ["return:s.token"] ∧ Rare.Gen.C04.bufBytes_skeleton = ["return:s.token"] ∧
+    Rare.Gen.C04.imm_counts = [8, 7, 7, 1] ∧ Rare.Gen.C04.buf_counts = [6, 6, 6, 1] ∧ Rare.Gen.C04.dropCR_counts = [1, 0, 1, 0] ∧
+    Rare.Gen.C04.immDelim = nl.toNat ∧ Rare.Gen.C04.bufDelim = nl.toNat := by
+  refine ⟨rfl, rfl, rfl, rfl, rfl, rfl, rfl, rfl, rfl, rfl, rfl, rfl, rfl, rfl, rfl⟩
+
+/-- Every condition, integer update, slice bound and allocation size of `ImmediateReadAhead.Scan` in /repo
+    is the one the hand model uses, and the slices are taken from the arrays the model takes them from. -/
+theorem imm_fragments_match_source :
+    ImmFrags.gen = ImmFrags.hand ∧
+    [(Rare.Gen.C04.imm_slice_0 0 0).base, (Rare.Gen.C04.imm_slice_1 0 0).base, (Rare.Gen.C04.imm_slice_2 0 0).base, (Rare.Gen.C04.imm_slice_3 0 0).base, (Rare.Gen.C04.imm_slice_4 0 0).base, (Rare.Gen.C04.imm_slice_5 0 0).base, (Rare.Gen.C04.imm_slice_6 0 0).base]
+      = ["s.buf", "s.buf", "s.buf", "old", "s.buf", "s.buf", "s.buf"] :=
+  ⟨rfl, rfl⟩
+
+/-- The same for `BufferedReadAhead.Scan` (the refill size goes through the generated `maxi`). -/
+theorem buf_fragments_match_source :
+    BufFrags.gen = BufFrags.hand ∧
+    [(Rare.Gen.C04.buf_slice_0 0 0).base, (Rare.Gen.C04.buf_slice_1 0 0).base, (Rare.Gen.C04.buf_slice_2 0 0).base, (Rare.Gen.C04.buf_slice_3 0 0).base, (Rare.Gen.C04.buf_slice_4 0 0).base, (Rare.Gen.C04.buf_slice_5 0).base]
+      = ["s.buf", "s.buf", "s.buf", "oldbuf", "s.buf", "s.buf"] :=
+  ⟨rfl, rfl⟩
+
+/-- `ImmediateReadAhead.Scan` of the model is, for every state with `offset ≤ end` (an invariant of the scan,
+    `Inv.off`) and every fuel, the program re-assembled from the fragments translated from /repo along the
+    pinned control skeleton: an off-by-one in an index expression of /repo breaks this theorem. -/
+theorem imm_scan_matches_source (fuel : Nat) (s : Imm) (h : s.offset ≤ s.buf.length) :
+    s.scan fuel = s.scanG ImmFrags.gen fuel := by
+  rw [imm_fragments_match_source.1]
+  exact (scanG_hand fuel s h).symm
+
+/-- The same for `BufferedReadAhead.Scan`, including the inner fill loop and the refill size
+    `maxi(maxBufLen, len(oldbuf)-offset+maxBufLen/2)`. -/
+theorem buf_scan_matches_source (fuel : Nat) (s : Buf) (h : s.offset ≤ s.buf.length) :
+    s.scan fuel = s.scanG BufFrags.gen fuel := by
+  rw [buf_fragments_match_source.1]
+  exact (bscanG_hand fuel s h).symm
+
+/-- The integer variables the model keeps implicitly as the length of the valid part follow the source:
+    `s.end -= s.offset` after a regrow, `s.end += n` after a Read, `readOffset := len(oldbuf) - s.offset`,
+    `readOffset += n`. -/
+theorem implicit_lengths_match_source :
+    (∀ s : Imm, s.offset ≤ s.buf.length →
+      (s.regrow.buf.length : Int) = Rare.Gen.C04.imm_set_2 s.buf.length s.offset) ∧
+    (∀ (s : Imm) (bs : Bytes) (rd' : Reader),
+      ((s.recv bs rd').buf.length : Int) = Rare.Gen.C04.imm_set_4 s.buf.length bs.length) ∧
+    (∀ s : Buf, s.offset ≤ s.buf.length →
+      ((evalSl s.buf (slB (Rare.Gen.C04.buf_slice_3 s.offset s.buf.length))).length : Int)
+        = Rare.Gen.C04.buf_set_3 s.buf.length s.offset) ∧
+    (∀ acc bs : Bytes, (((acc ++ bs).length : Nat) : Int) = Rare.Gen.C04.buf_set_4 acc.length bs.length) :=
+  ⟨imm_end_after_regrow, imm_end_after_read, buf_readOffset_init, buf_readOffset_after_read⟩
+
+/-- The specification's `dropCR` is the function of pkg/readahead/util.go: its condition
+    `len(data) > 0 && data[len(data)-1] == '\r'` and its result slice `data[0:len(data)-1]`, read on lists. -/
+theorem dropCR_matches_source (data : Bytes) :
+    dropCR data = dropCRG Rare.Gen.C04.dropCR_cond_0 (fun n => slB (Rare.Gen.C04.dropCR_slice_0 n)) data ∧
+    (Rare.Gen.C04.dropCR_slice_0 0).base = "data" :=
+  ⟨(dropCRG_hand data).symm, rfl⟩
+
+/-- `maxi` of util.go is `max`, and the model's refill size is the generated allocation size. -/
+theorem maxi_matches_source (a b : Int) : Rare.Gen.C04.maxi a b = max a b := by
+  unfold Rare.Gen.C04.maxi
+  by_cases h : a > b
+  · simp only [h, decide_true, if_true]; omega
+  · simp only [h, decide_false, Bool.false_eq_true, if_false]; omega
+
+/-- The constructors: `NewImmediate` allocates `bufSize` bytes (the model's initial `cap`), `NewBuffered`
+    panics exactly when `maxBufLen ≤ 1` (the hypothesis `2 ≤ m` of the `buf_*` theorems is its negation). -/
+theorem constructors_match_source (n : Nat) (rd : Reader) :
+    ((Imm.init n rd).cap : Int) = Rare.Gen.C04.newImm_make_0 n ∧
+    (Rare.Gen.C04.newBuf_cond_0 n = false ↔ 2 ≤ n) := by
+  refine ⟨rfl, ?_⟩
+  simp [Rare.Gen.C04.newBuf_cond_0]; omega
+
+/-- Non-vacuity of the tie: the re-assembled program really runs (same concrete scan as above). -/
+example : (match ((Imm.init 2 ⟨[97, 13, 10, 98], []⟩).scanG ImmFrags.gen 5).1 with
+    | .tok v b => some (v, b) | _ => none) = some (⟨1, 0, 1⟩, [97]) := by decide
 
 end Rare.C04
